@@ -64,6 +64,11 @@ def harnesses(tier):
                        units=[dict(src=unit, cflags=['-Dexit=verif_exit', '-Dfprintf=verif_fprintf'], remove=trees), 'repo:token.c', 'repo:stack.c', 'repo:object_pool.c', 'repo:char.c'],
                        unwind=14, object_bits=11, timeout=900, mem_gb=6, functional=True, replay=False, nobody_ok=['verif_exit', 'verif_fprintf'],
                        desc='%s: delimiter tokens with literal text are escaped in verbatim context (no raw <, no bare &)' % fn))
+    hs.append(dict(name='c08_raw_gate', src='c08/rawfilter.c', defs=dict(PL=7 if tier == 'quick' else 9),
+                   units=[dict(src='repo:writer.c', cflags=['-include', 'vh_libc.h'])],
+                   unwind=12, timeout=900, mem_gb=6, functional=True,
+                   bounds='filter text 0..%d arbitrary non-NUL bytes x all 13 output formats' % (7 if tier == 'quick' else 9),
+                   desc='raw_filter_text_matches: the gate that lets raw source through unescaped opens iff the filter is a wildcard or names the writer\'s own format family'))
     return hs
 
 CLAIM = dict(
